@@ -135,6 +135,9 @@ func efundScenario() *Scenario {
 		Action{Name: "raise(PA,7);accept(S1,#5)", Dt: ms, Txs: func(*model.State) []model.Tx {
 			return []model.Tx{{Msgs: []model.Msg{{Kind: model.EntRaise, From: "PA", Den: mc.Nund, Amt: "7"}}}, {Msgs: []model.Msg{{Kind: model.EntDecide, From: "S1", ID: 5, N: 2}}}}
 		}, Enabled: func(m *model.State, _ map[string]int) bool { return len(m.Ent.Orders) == 4 }},
+		Action{Name: "raise(PV,500);accept(S1,#5)", Dt: ms, Txs: func(*model.State) []model.Tx {
+			return []model.Tx{{Msgs: []model.Msg{{Kind: model.EntRaise, From: "PV", Den: mc.Nund, Amt: "500"}}}, {Msgs: []model.Msg{{Kind: model.EntDecide, From: "S1", ID: 5, N: 2}}}}
+		}, Enabled: func(m *model.State, _ map[string]int) bool { return len(m.Ent.Orders) == 4 }},
 		Action{Name: "raise(PV,500)", Dt: ms, Txs: tx1(model.Msg{Kind: model.EntRaise, From: "PV", Den: mc.Nund, Amt: "500"}),
 			Enabled: func(m *model.State, _ map[string]int) bool { return len(m.Ent.Orders) == 4 }},
 		// the purchaser leaves the whitelist while its order is between raise / acceptance / completion
